@@ -376,6 +376,13 @@ func c02Methods(c *run.Ctx) {
 			}
 			c.Count("method_calls_after_late_registration", 1)
 		}
+		if op == "mutation" && i%4 == 2 {
+			// a registration that is REFUSED (no such Go member) changes nothing: the earlier one stays in force
+			// (whether ggql reports the bogus name is not this property's subject - it does not when the field is already
+			// bound to a method; what the next request is answered is)
+			_ = root.RegisterField("Mutation", field, "NoSuchGoMemberZz")
+			c.Count("method_calls_after_a_bogus_registration", 1)
+		}
 		pv, _ := run.Protect(func() {
 			if i%2 == 0 {
 				res = root.ResolveString(text, "", copyVars(vars))
